@@ -66,7 +66,7 @@ theorem C20_tagged (ds : List Detector) (px : PkgMap) (hn : NoCancel ds)
 
 /-- Two detectors returning the SAME finding object: it is reported twice, once tagged with each
 detector (before fix e8c67092 both copies carried the second detector's name). -/
-def sharedF : Finding := ⟨1, some ⟨some (0, 7), 0⟩, 0, 0, []⟩
+def sharedF : Finding := ⟨1, some ⟨some (0, [7]), 0⟩, 0, [], []⟩
 def sharedDs : List Detector :=
   [⟨"d1", fun _ => ([some sharedF], false), false⟩, ⟨"d2", fun _ => ([some sharedF], false), false⟩]
 theorem C20_tagged_shared_pointer :
@@ -203,14 +203,14 @@ theorem C20_no_sort_panic (i : ScanIn) (hn : NoCancel i.dets)
 
 /-! ### non-vacuity -/
 
-def exA : Adv := ⟨some (1, 5), 3⟩
-def exB : Adv := ⟨some (1, 6), 4⟩
+def exA : Adv := ⟨some (1, [5]), 3⟩
+def exB : Adv := ⟨some (1, [6]), 4⟩
 /-- three detectors: two report the same advisory (identical bodies), one of them also fails with an
 error, the third looks a package up in the index and reports one finding per hit -/
 def exDs : List Detector :=
-  [⟨"d1", fun _ => ([some ⟨1, some exA, 0, 0, []⟩], false), false⟩,
-   ⟨"d2", fun _ => ([some ⟨2, some exA, 0, 1, ["stale"]⟩, some ⟨3, some exB, 9, 0, []⟩], true), false⟩,
-   ⟨"d3", fun px => ((getSpecific px "n" "t").map fun p => some ⟨10 + p.id, some exB, p.id, 2, []⟩, false), false⟩]
+  [⟨"d1", fun _ => ([some ⟨1, some exA, 0, [], []⟩], false), false⟩,
+   ⟨"d2", fun _ => ([some ⟨2, some exA, 0, [1], ["stale"]⟩, some ⟨3, some exB, 9, [], []⟩], true), false⟩,
+   ⟨"d3", fun px => ((getSpecific px "n" "t").map fun p => some ⟨10 + p.id, some exB, p.id, [2], []⟩, false), false⟩]
 def exPkgs : List Pkg := [⟨0, some ("t", "n")⟩, ⟨1, none⟩, ⟨2, some ("t", "m")⟩, ⟨3, some ("t", "n")⟩]
 
 example : NoCancel exDs := by intro d hd; simp [exDs] at hd; rcases hd with rfl | rfl | rfl <;> rfl
@@ -219,11 +219,11 @@ example : ((run exDs (Index.new exPkgs)).findings.map fun f => (f.ptr, f.detecto
     [(1, ["d1"]), (2, ["d2"]), (3, ["d2"]), (10, ["d3"]), (13, ["d3"])] := by decide
 example : (run exDs (Index.new exPkgs)).status = [⟨"d1", .succeeded⟩, ⟨"d2", .failed⟩, ⟨"d3", .succeeded⟩] := by decide
 /-- inconsistent inputs exist: same ID with a different body; a nil entry -/
-example : consistentB [some ⟨1, some ⟨some (1, 5), 3⟩, 0, 0, []⟩, some ⟨2, some ⟨some (1, 5), 4⟩, 0, 0, []⟩] = false := by decide
+example : consistentB [some ⟨1, some ⟨some (1, [5]), 3⟩, 0, [], []⟩, some ⟨2, some ⟨some (1, [5]), 4⟩, 0, [], []⟩] = false := by decide
 example : (run [⟨"d", fun _ => ([some sharedF, none], false), false⟩] []).err = some .nilFinding ∧
     (run [⟨"d", fun _ => ([some sharedF, none], false), false⟩] []).findings = [] := by
   refine ⟨by decide, by decide⟩
 /-- the hypothesis of `C20_no_sort_panic` matters: two extractor findings, one without advisory -/
-example : (scanTail ⟨[], [⟨1, none, 0, 0, []⟩, ⟨2, some exA, 0, 0, []⟩], [], [], [], [], []⟩).panics = true := by decide
+example : (scanTail ⟨[], [⟨1, none, 0, [], []⟩, ⟨2, some exA, 0, [], []⟩], [], [], [], [], []⟩).panics = true := by decide
 
 end Scalibr.Detector
